@@ -183,11 +183,29 @@ def execute(spec):
         elif out["solve_exc"] or out["system_exit"]:
             V("exception_with_flags", {"exc": out["solve_exc"] or "SystemExit", "frame": out.get("solve_frame"), "msg": out.get("solve_msg"), "flags": spec["flags"]})
         else:
-            main_fault = [k for k in out["fired"] if k not in ("alarm_fired",)]
-            if out["solved"] != ref_out["solved"]:
-                V("solvability_changed", {"reference_solved": ref_out["solved"], "solved": out["solved"], "flags": spec["flags"], "faults_fired": out["fired"]})
-            elif out["solved"] and not _close(out.get("objective"), ref_out.get("objective")):
-                V("objective_changed", {"reference": ref_out.get("objective"), "objective": out.get("objective"), "flags": spec["flags"], "faults_fired": out["fired"]})
+            differs = (out["solved"] != ref_out["solved"]) or (out["solved"] and not _close(out.get("objective"), ref_out.get("objective")))
+            if differs:
+                # is it the library or the solver?  re-solve both sides under other native solver configurations
+                from sim import crosscheck
+
+                def side(flags):
+                    def fn(cfg):
+                        o, _, _ = mr.run(_with_flags(world, flags), cfg, seed=0)
+                        return (o["solved"], o.get("objective"), o.get("solve_exc") or o.get("construct_exc"))
+                    return fn
+                try:
+                    rs, rbest, rall = crosscheck.best_over_configs(side(off_flags(cname)), {"latency": "instant"})
+                    fs, fbest, fall = crosscheck.best_over_configs(side(spec["flags"]), {"latency": "instant"})
+                except W.Discard as e:
+                    return {"discard": str(e)}
+                if rs != fs:
+                    V("solvability_changed", {"reference_solved": rs, "solved": fs, "flags": spec["flags"], "faults_fired": out["fired"],
+                                              "reference_runs": rall, "flagged_runs": fall})
+                elif rs and not crosscheck.close(rbest, fbest):
+                    V("objective_changed", {"reference": rbest, "objective": fbest, "flags": spec["flags"], "faults_fired": out["fired"],
+                                            "reference_runs": rall, "flagged_runs": fall})
+                else:
+                    counters["solver_not_truthful_discrepancy_dismissed"] = 1
             counters["status:" + ("solved" if out["solved"] else "unsolved")] = 1
     seen, uniq = set(), []
     for v in vs:
